@@ -2313,7 +2313,14 @@ func (e *episode) execPeer(run *hx.Run, o peerOp) {
 			str string
 		}
 		var ents []ent
-		for pk, par := range parsed {
+		var pks []string
+		for pk := range parsed {
+			pks = append(pks, string(pk))
+		}
+		sort.Strings(pks)
+		for _, pkStr := range pks {
+			pk := core.PubKey(pkStr)
+			par := parsed[pk]
 			s := sampleOfCore(par.SignedData)
 			if s == nil {
 				panic(fmt.Sprintf("unknown parsed type %T", par.SignedData))
